@@ -152,7 +152,7 @@ func runC17(t *testing.T, scAny any, trace bool) *Outcome {
 	sc := scAny.(*C17Scn)
 	o := &Outcome{HorizonOK: true}
 	var stopReturned, closeReturned, adminStarted simrt.Counter // simulated ns (0 = not yet)
-	var closeRetStamp simrt.Counter                            // scheduler stamp of the first Close/Unexport that returned nil (0 = none)
+	var closeRetStamp simrt.Counter                             // scheduler stamp of the first Close/Unexport that returned nil (0 = none)
 	var stopTimedOut simrt.Counter
 	var maxStall time.Duration
 	for _, f := range sc.Stalls {
